@@ -91,6 +91,11 @@ def useTypeNoRollback (R : List (Option SDesc)) (sid : Nat) (st : CacheSt) : Boo
     | (true, s) => (true, { pub := sid :: st.pub, pf := s.pf, linked := s.linked })
     | (false, s) => (false, { pub := st.pub, pf := s.pf, linked := s.linked })
 
+/-- user code runs during a build (`InitDefault`, called to read the declared defaults) and may fail
+    — panic — on one call and work on the next: the resolution results while the structs `bs` fail -/
+def failing (R : List (Option SDesc)) (bs : List Nat) : List (Option SDesc) :=
+  R.zipIdx.map fun p => if bs.contains p.2 then none else p.1
+
 def useAll (R : List (Option SDesc)) : List Nat → CacheSt → CacheSt
   | [], st => st
   | sid :: r, st => useAll R r (useType R sid st).2
